@@ -76,7 +76,13 @@ pub fn tour_of<'a>(o: &'a Obs, v: VehicleIdx) -> Option<&'a TourObs> {
 }
 
 pub enum Applied {
-    Ok { s: Schedule, new_id: Option<VehicleIdx>, conflict: Option<Option<Vec<N>>> },
+    Ok {
+        s: Schedule,
+        new_id: Option<VehicleIdx>,
+        conflict: Option<Option<Vec<N>>>,
+        /// for set_next_day_transitions: the transitions that were handed in
+        given_transitions: Option<Vec<crate::bridge::TransObs>>,
+    },
     Err(String),
     Panic(PanicInfo),
     /// the harness could not build the arguments (e.g. Path::new refused a model-valid path)
@@ -276,15 +282,15 @@ pub fn apply(b: &Bridge, s: &Schedule, before: &Obs, op: &Op) -> Applied {
     let r = guard(|| -> Applied {
         match op {
             Op::Spawn { vtype, path } => match s.spawn_vehicle_for_path(vt(*vtype), b.nodes(path)) {
-                Ok((s2, id)) => Applied::Ok { s: s2, new_id: Some(id), conflict: None },
+                Ok((s2, id)) => Applied::Ok { s: s2, new_id: Some(id), conflict: None, given_transitions: None },
                 Err(e) => Applied::Err(e),
             },
             Op::SpawnReplaceDummy { dummy, vtype } => match s.spawn_vehicle_to_replace_dummy_tour(*dummy, vt(*vtype)) {
-                Ok((s2, id)) => Applied::Ok { s: s2, new_id: Some(id), conflict: None },
+                Ok((s2, id)) => Applied::Ok { s: s2, new_id: Some(id), conflict: None, given_transitions: None },
                 Err(e) => Applied::Err(e),
             },
             Op::ReplaceByDummy { v } => match s.replace_vehicle_by_dummy(*v) {
-                Ok(s2) => Applied::Ok { s: s2, new_id: None, conflict: None },
+                Ok(s2) => Applied::Ok { s: s2, new_id: None, conflict: None, given_transitions: None },
                 Err(e) => Applied::Err(e),
             },
             Op::AddPath { v, path } => {
@@ -294,32 +300,33 @@ pub fn apply(b: &Bridge, s: &Schedule, before: &Obs, op: &Op) -> Applied {
                     Err(e) => return Applied::Unbuildable(format!("Path::new refused a path that is valid by the timing rule: {}", e)),
                 };
                 match s.add_path_to_vehicle_tour(*v, p) {
-                    Ok((s2, c)) => Applied::Ok { s: s2, new_id: None, conflict: Some(c.as_ref().map(conv)) },
+                    Ok((s2, c)) => Applied::Ok { s: s2, new_id: None, conflict: Some(c.as_ref().map(conv)), given_transitions: None },
                     Err(e) => Applied::Err(e),
                 }
             }
             Op::RemoveSegment { v, i, j } => match s.remove_segment(seg_of(v, *i, *j), *v) {
-                Ok(s2) => Applied::Ok { s: s2, new_id: None, conflict: None },
+                Ok(s2) => Applied::Ok { s: s2, new_id: None, conflict: None, given_transitions: None },
                 Err(e) => Applied::Err(e),
             },
             Op::Fit { p, r, i, j } => match s.fit_reassign(seg_of(p, *i, *j), *p, *r) {
-                Ok(s2) => Applied::Ok { s: s2, new_id: None, conflict: None },
+                Ok(s2) => Applied::Ok { s: s2, new_id: None, conflict: None, given_transitions: None },
                 Err(e) => Applied::Err(e),
             },
             Op::Override { p, r, i, j } => match s.override_reassign(seg_of(p, *i, *j), *p, *r) {
-                Ok((s2, d)) => Applied::Ok { s: s2, new_id: d, conflict: None },
+                Ok((s2, d)) => Applied::Ok { s: s2, new_id: d, conflict: None, given_transitions: None },
                 Err(e) => Applied::Err(e),
             },
-            Op::ImproveDepots { vs } => Applied::Ok { s: s.improve_depots(vs.clone()), new_id: None, conflict: None },
+            Op::ImproveDepots { vs } => Applied::Ok { s: s.improve_depots(vs.clone()), new_id: None, conflict: None, given_transitions: None },
             Op::EndDepotsGreedy => match s.reassign_end_depots_greedily() {
-                Ok(s2) => Applied::Ok { s: s2, new_id: None, conflict: None },
+                Ok(s2) => Applied::Ok { s: s2, new_id: None, conflict: None, given_transitions: None },
                 Err(e) => Applied::Err(e),
             },
-            Op::EndDepotsConsistent => Applied::Ok { s: s.reassign_end_depots_consistent_with_transitions(), new_id: None, conflict: None },
+            Op::EndDepotsConsistent => Applied::Ok { s: s.reassign_end_depots_consistent_with_transitions(), new_id: None, conflict: None, given_transitions: None },
             Op::RecomputeTransitions { types } => Applied::Ok {
                 s: s.recompute_transitions_for(types.as_ref().map(|v| v.iter().map(|&t| vt(t)).collect())),
                 new_id: None,
                 conflict: None,
+                given_transitions: None,
             },
             Op::SetTransitions { moves } => {
                 let mut map: im::HashMap<VehicleTypeIdx, Transition> = im::HashMap::new();
@@ -331,7 +338,8 @@ pub fn apply(b: &Bridge, s: &Schedule, before: &Obs, op: &Op) -> Applied {
                     let moved = cur.move_vehicle(*v, *c, s.get_tours(), &net);
                     map.insert(vt(*t), moved);
                 }
-                Applied::Ok { s: s.set_next_day_transitions(map), new_id: None, conflict: None }
+                let given: Vec<crate::bridge::TransObs> = (0..b.inst.types.len()).map(|t| crate::bridge::TransObs::of(map.get(&vt(t)).unwrap())).collect();
+                Applied::Ok { s: s.set_next_day_transitions(map), new_id: None, conflict: None, given_transitions: Some(given) }
             }
         }
     });
@@ -357,6 +365,7 @@ pub fn judge(
     after: &Obs,
     new_id: Option<VehicleIdx>,
     conflict: &Option<Option<Vec<N>>>,
+    given_transitions: &Option<Vec<crate::bridge::TransObs>>,
     seen_ids: &BTreeSet<VehicleIdx>,
     out: &mut CaseOut,
 ) {
@@ -730,6 +739,16 @@ pub fn judge(
         }
         Op::RecomputeTransitions { .. } | Op::SetTransitions { .. } => {
             depot_only = true;
+            if let Some(given) = given_transitions {
+                for (t, g) in given.iter().enumerate() {
+                    if after.transitions.get(t) != Some(g) {
+                        v13(
+                            "set_next_day_transitions.not_applied",
+                            format!("type {}: the schedule does not carry the transition it was given (cycles {:?} instead of {:?})", inst.types[t].id, after.transitions.get(t).map(|x| x.canonical()), g.canonical()),
+                        );
+                    }
+                }
+            }
             for (v, t) in &before.vehicles {
                 if after.vehicles.get(v) != Some(t) {
                     v13("frame.tour_changed_by_transition_op", format!("{}", v));
@@ -1000,7 +1019,7 @@ pub fn case(ctx: &Ctx, idx: u64) -> CaseOut {
                 out.witness = Some(json!({"input": input, "start": start_kind, "history": history, "state_before_last_op": before.to_json(&b)}));
                 break;
             }
-            Applied::Ok { s: s2, new_id, conflict } => {
+            Applied::Ok { s: s2, new_id, conflict, given_transitions } => {
                 let after = Obs::of(&b, &s2);
                 out.count("ops_ok", 1);
                 out.count("states_observed", 1);
@@ -1010,7 +1029,7 @@ pub fn case(ctx: &Ctx, idx: u64) -> CaseOut {
                 let f10 = check_structure(&b, &after);
                 out.add_findings(&f9);
                 out.add_findings(&f10);
-                judge(&b, &op, &before, &after, new_id, &conflict, &seen_ids, &mut out);
+                judge(&b, &op, &before, &after, new_id, &conflict, &given_transitions, &seen_ids, &mut out);
                 // the repository's own self-check, never verdict bearing by itself
                 if f9.is_empty() && f10.is_empty() {
                     if guard(|| s2.verify_consistency()).is_err() {
